@@ -34,7 +34,10 @@ Inductive add_out := Added | BinNotFound.
 Definition add_observation (g : grid A) (counts : list nat) (pt : list A) : res (list nat * add_out) :=
   r <- grid_index_of A leb g pt ;;
   match r with
-  | Some idx => Ok (bump (ravel (grid_shape A g) idx) counts, Added)
+  | Some idx =>
+    (* self.counts[&*bin_index] += 1: indexing the counts array out of bounds panics *)
+    let k := ravel (grid_shape A g) idx in
+    if k <? length counts then Ok (bump k counts, Added) else Panic
   | None => Ok (counts, BinNotFound)
   end.
 
